@@ -135,4 +135,153 @@ Section P.
           -- rewrite H_cons. assert (NC2 : ~ In RCrashRow (pp T d r (InElems (PList ppa pen false) false dw))) by (intros Hx; apply NC; right; exact Hx).
              (rewrite IH; [|solve_ok|exact NC2]). reflexivity.
   Qed.
+
+  (** ---- every event is shown by exactly one row, in order *)
+  Definition CV (rows : list row) : list pev := List.concat (map row_cover rows).
+  Lemma CV_app a b : CV (a ++ b) = CV a ++ CV b.
+  Proof. unfold CV. rewrite map_app, concat_app. reflexivity. Qed.
+  Lemma CV_cons r a : CV (r :: a) = row_cover r ++ CV a. Proof. reflexivity. Qed.
+
+  Definition is_warn (e : pev) : bool := match e with PWarn _ => true | _ => false end.
+  (** a selection of events that either ignores warnings or selects warnings only (warnings raised inside a list
+      before its row is printed are shown right after that row), and that ignores the parents of non-byte lists
+      (which have a row only when the list is empty) *)
+  Definition separates (f : pev -> bool) : Prop :=
+    (forall e, is_warn e = true -> f e = false) \/ (forall e, is_warn e = false -> f e = false).
+  Definition ignores_list_parents (f : pev -> bool) : Prop := forall pa en, f (PList pa en false) = false.
+
+  Lemma filter_warns_none f ws : (forall e, is_warn e = true -> f e = false) -> all_warn ws -> filter f ws = [].
+  Proof.
+    intros Hf. induction 1 as [|e ws He _ IH]; [reflexivity|]. cbn [filter]. destruct e as [| | |t]; try contradiction. rewrite (Hf (PWarn t) eq_refl). exact IH.
+  Qed.
+
+  Lemma filter_cons_app (f : pev -> bool) x r : filter f (x :: r) = filter f [x] ++ filter f r.
+  Proof. cbn [filter]. destruct (f x); reflexivity. Qed.
+
+  Lemma filter_swap f (a : list pev) ws x : separates f -> all_warn ws -> is_warn x = false ->
+    filter f (a ++ ws ++ [x]) = filter f ((a ++ [x]) ++ ws).
+  Proof.
+    intros [Hf|Hf] Hw Hx; rewrite !filter_app.
+    - rewrite (filter_warns_none f ws Hf Hw), app_nil_r. reflexivity.
+    - cbn [filter]. rewrite (Hf x Hx), !app_nil_r. reflexivity.
+  Qed.
+
+  (** once an element has been shown nothing is deferred any more *)
+  Definition st_ok2 (st : pstate) : Prop :=
+    st_ok st /\ match st with InElems _ false dw => dw = [] | _ => True end.
+
+  Theorem rows_cover_events_once f : separates f -> ignores_list_parents f ->
+    forall evs st, st_ok2 st -> ~ In RCrashRow (pp T d evs st) ->
+    filter f (CV (pp T d evs st)) = filter f (pending_cover st ++ evs).
+  Proof.
+    intros Hs Hl. induction evs as [|e r IH]; intros st [OK OK2] NC.
+    - destruct st as [|pa en buf cover dw|parent empty dw]; cbn [pp pending_cover]; rewrite ?app_nil_r; try reflexivity.
+      + rewrite CV_cons. unfold CV. rewrite warn_rows_cover. reflexivity.
+      + destruct parent as [| ppa pen [|] | |]; try contradiction. rewrite CV_app. unfold CV at 2. rewrite warn_rows_cover.
+        destruct empty; [|reflexivity]. cbn [CV map List.concat plain_row row_cover app filter]. rewrite Hl. reflexivity.
+    - destruct st as [|pa en buf cover dw|parent empty dw]; cbn [pp pending_cover] in *.
+      + destruct e as [pa tn|pa en b|pa p z|t].
+        * rewrite CV_app. unfold CV at 1. rewrite full_rows_cover. apply in_app_not in NC as [_ NC]. rewrite filter_app, (IH Top (conj I I) NC). cbn [pending_cover app]. symmetry. apply filter_cons_app.
+        * destruct b.
+          -- rewrite (IH (InBytes pa en [] [PList pa en true] []) (conj (Forall_nil _) I) NC). cbn [pending_cover app]. reflexivity.
+          -- rewrite (IH (InElems (PList pa en false) true []) (conj (Forall_nil _) I) NC). cbn [pending_cover app filter]. rewrite Hl. reflexivity.
+        * rewrite CV_app. unfold CV at 1. rewrite full_rows_cover. apply in_app_not in NC as [_ NC]. rewrite filter_app, (IH Top (conj I I) NC). cbn [pending_cover app]. symmetry. apply filter_cons_app.
+        * rewrite CV_app. unfold CV at 1. rewrite full_rows_cover. apply in_app_not in NC as [_ NC]. rewrite filter_app, (IH Top (conj I I) NC). cbn [pending_cover app]. symmetry. apply filter_cons_app.
+      + assert (Hout : forall x, ~ In RCrashRow (bytes_row pa en buf cover :: warn_rows T d dw ++ full_rows T d x ++ pp T d r Top) ->
+                  filter f (CV (bytes_row pa en buf cover :: warn_rows T d dw ++ full_rows T d x ++ pp T d r Top)) =
+                  filter f ((cover ++ dw) ++ x :: r)).
+        { intros x NC'. rewrite CV_cons, !CV_app. unfold CV at 1 2. rewrite warn_rows_cover, full_rows_cover.
+          assert (NC2 : ~ In RCrashRow (pp T d r Top)).
+          { intros Hx. apply NC'. right. apply in_or_app. right. apply in_or_app. right. exact Hx. }
+          cbn [bytes_row row_cover]. rewrite !filter_app, (IH Top (conj I I) NC2). cbn [pending_cover app]. rewrite <- !filter_app, <- !app_assoc. reflexivity. }
+        destruct e as [pa' tn|pa' en' b|pa' p z|t]; cbn [pev_path] in *.
+        * destruct (is_child pa pa'); [exfalso; apply NC; left; reflexivity|]. apply (Hout (PStruct pa' tn) NC).
+        * destruct (is_child pa pa'); [exfalso; apply NC; left; reflexivity|]. apply (Hout (PList pa' en' b) NC).
+        * destruct (is_child pa pa').
+          -- rewrite (IH (InBytes pa en (buf ++ prim_hex p z) (cover ++ [PPrim pa' p z]) dw) (conj OK I) NC). cbn [pending_cover].
+             change (PPrim pa' p z :: r) with ([PPrim pa' p z] ++ r). rewrite !app_assoc, !(filter_app f _ r). f_equal.
+             rewrite <- (app_assoc cover dw). symmetry. apply (filter_swap f cover dw (PPrim pa' p z) Hs OK eq_refl).
+          -- apply (Hout (PPrim pa' p z) NC).
+        * rewrite (IH (InBytes pa en buf cover (dw ++ [PWarn t])) (conj (all_warn_snoc dw t OK) I) NC). cbn [pending_cover]. rewrite <- !app_assoc. reflexivity.
+      + destruct parent as [| ppa pen [|] | |]; try contradiction.
+        assert (Hparent : forall b : bool, filter f (CV (if b then [plain_row T d (PList ppa pen false)] else [])) = []).
+        { intros []; [|reflexivity]. cbn [CV map List.concat plain_row row_cover app filter]. rewrite Hl. reflexivity. }
+        assert (Hin : forall x, is_warn x = false -> ~ In RCrashRow (warn_rows T d dw ++ plain_row T d x :: pp T d r (InElems (PList ppa pen false) false [])) ->
+                  filter f (CV (warn_rows T d dw ++ plain_row T d x :: pp T d r (InElems (PList ppa pen false) false []))) = filter f (dw ++ x :: r)).
+        { intros x Hx NC'. rewrite CV_app, CV_cons. unfold CV at 1. rewrite warn_rows_cover.
+          apply in_app_not in NC' as [_ NC']. assert (NC2 : ~ In RCrashRow (pp T d r (InElems (PList ppa pen false) false []))) by (intros Hy; apply NC'; right; exact Hy).
+          rewrite !filter_app, (IH (InElems (PList ppa pen false) false []) (conj (Forall_nil _) eq_refl) NC2). cbn [pending_cover app].
+          replace (row_cover (plain_row T d x)) with [x] by (destruct x; reflexivity).
+          change (x :: r) with ([x] ++ r). rewrite filter_app. reflexivity. }
+        assert (Hout : forall x, ~ In RCrashRow ((if empty then [plain_row T d (PList ppa pen false)] else []) ++ warn_rows T d dw ++ full_rows T d x ++ pp T d r Top) ->
+                  filter f (CV ((if empty then [plain_row T d (PList ppa pen false)] else []) ++ warn_rows T d dw ++ full_rows T d x ++ pp T d r Top)) = filter f (dw ++ x :: r)).
+        { intros x NC'. rewrite !CV_app, !filter_app, Hparent. unfold CV at 1 2. rewrite warn_rows_cover, full_rows_cover.
+          apply in_app_not in NC' as [_ NC']. apply in_app_not in NC' as [_ NC']. apply in_app_not in NC' as [_ NC'].
+          rewrite (IH Top (conj I I) NC'). cbn [pending_cover app]. change (x :: r) with ([x] ++ r). rewrite filter_app. reflexivity. }
+        destruct e as [pa' tn|pa' en' b|pa' p z|t]; cbn [pev_path] in *.
+        * destruct (is_child ppa pa'); [apply (Hin (PStruct pa' tn) eq_refl NC)|apply (Hout (PStruct pa' tn) NC)].
+        * destruct (is_child ppa pa'); [apply (Hin (PList pa' en' b) eq_refl NC)|apply (Hout (PList pa' en' b) NC)].
+        * destruct (is_child ppa pa'); [apply (Hin (PPrim pa' p z) eq_refl NC)|apply (Hout (PPrim pa' p z) NC)].
+        * destruct empty.
+          -- rewrite (IH (InElems (PList ppa pen false) true (dw ++ [PWarn t])) (conj (all_warn_snoc dw t OK) I) NC). cbn [pending_cover]. rewrite <- app_assoc. reflexivity.
+          -- cbn in OK2. subst dw. rewrite CV_cons. assert (NC2 : ~ In RCrashRow (pp T d r (InElems (PList ppa pen false) false []))) by (intros Hx; apply NC; right; exact Hx).
+             cbn [row_cover]. rewrite filter_app, (IH (InElems (PList ppa pen false) false []) (conj (Forall_nil _) eq_refl) NC2). cbn [pending_cover app].
+             change (PWarn t :: r) with ([PWarn t] ++ r). rewrite filter_app. reflexivity.
+  Qed.
+
+  (** ---- what a row is: the row of one event, a bit row of the attribute word above it, or the single row of a
+      byte buffer, holding the bytes of all its elements *)
+  Definition is_prim (e : pev) : Prop := match e with PPrim _ _ _ => True | _ => False end.
+  Definition row_ok (r : row) : Prop :=
+    (exists e, r = plain_row T d e) \/ (exists dp n b, r = RBits dp n b) \/
+    (exists pa en ps, Forall is_prim ps /\ r = bytes_row pa en (List.concat (map pev_bytes ps)) (PList pa en true :: ps)) \/
+    r = RCrashRow.
+  Definition st_rows (st : pstate) : Prop :=
+    match st with
+    | InBytes pa en buf cover _ => exists ps, Forall is_prim ps /\ cover = PList pa en true :: ps /\ buf = List.concat (map pev_bytes ps)
+    | _ => True
+    end.
+
+  Lemma attr_rows_ok pa p z : Forall row_ok (attr_rows T d pa p z).
+  Proof.
+    unfold attr_rows. destruct (pkind_ p) as [|ms|masks|]; try constructor.
+    - apply Forall_forall. intros r Hr. apply in_map_iff in Hr as (x & <- & _). right. left. do 3 eexists. reflexivity.
+    - apply Forall_forall. intros r Hr. apply in_map_iff in Hr as (x & <- & _). right. left. do 3 eexists. reflexivity.
+  Qed.
+  Lemma full_rows_ok e : Forall row_ok (full_rows T d e).
+  Proof. unfold full_rows. constructor; [left; exists e; reflexivity|]. destruct e; try constructor. apply attr_rows_ok. Qed.
+  Lemma warn_rows_ok ws : Forall row_ok (warn_rows T d ws).
+  Proof. apply Forall_forall. intros r Hr. apply in_map_iff in Hr as (x & <- & _). left. exists x. reflexivity. Qed.
+
+  Theorem every_row_is_an_event_row_a_bit_row_or_a_buffer_row evs : forall st, st_rows st -> Forall row_ok (pp T d evs st).
+  Proof.
+    induction evs as [|e r IH]; intros st SR.
+    - destruct st as [|pa en buf cover dw|parent empty dw]; cbn [pp]; [constructor| |].
+      + destruct SR as (ps & Hp & -> & ->). constructor; [|apply warn_rows_ok]. right. right. left. exists pa, en, ps. split; [exact Hp|reflexivity].
+      + apply Forall_app. split; [destruct empty; constructor; [left; eexists; reflexivity|constructor]|apply warn_rows_ok].
+    - destruct st as [|pa en buf cover dw|parent empty dw]; cbn [pp].
+      + destruct e as [pa tn|pa en b|pa p z|t]; try (apply Forall_app; split; [apply full_rows_ok|apply (IH Top I)]).
+        destruct b; apply IH; [|exact I]. exists []. split; [constructor|]. split; reflexivity.
+      + assert (Hout : forall x, Forall row_ok (bytes_row pa en buf cover :: warn_rows T d dw ++ full_rows T d x ++ pp T d r Top)).
+        { intros x. destruct SR as (ps & Hp & -> & ->). constructor; [right; right; left; exists pa, en, ps; split; [exact Hp|reflexivity]|].
+          apply Forall_app. split; [apply warn_rows_ok|]. apply Forall_app. split; [apply full_rows_ok|apply (IH Top I)]. }
+        destruct e as [pa' tn|pa' en' b|pa' p z|t]; cbn [pev_path].
+        * destruct (is_child pa pa'); [constructor; [right; right; right; reflexivity|constructor]|apply Hout].
+        * destruct (is_child pa pa'); [constructor; [right; right; right; reflexivity|constructor]|apply Hout].
+        * destruct (is_child pa pa'); [|apply Hout]. apply IH. destruct SR as (ps & Hp & -> & ->).
+          exists (ps ++ [PPrim pa' p z]). split; [apply Forall_app; split; [exact Hp|constructor; [exact I|constructor]]|].
+          split; [reflexivity|]. rewrite map_app, concat_app. cbn [map List.concat pev_bytes]. rewrite app_nil_r. reflexivity.
+        * apply IH. exact SR.
+      + assert (Hparent : Forall row_ok (if empty then [plain_row T d parent] else [])) by (destruct empty; constructor; [left; eexists; reflexivity|constructor]).
+        destruct e as [pa' tn|pa' en' b|pa' p z|t]; cbn [pev_path].
+        1-3: destruct (is_child (pev_path parent) pa');
+          [apply Forall_app; split; [apply warn_rows_ok|constructor; [left; eexists; reflexivity|apply (IH (InElems parent false []) I)]]
+          |apply Forall_app; split; [exact Hparent|apply Forall_app; split; [apply warn_rows_ok|apply Forall_app; split; [apply full_rows_ok|apply (IH Top I)]]]].
+        destruct empty; [apply (IH (InElems parent true (dw ++ [PWarn t])) I)|constructor; [left; exists (PWarn t); reflexivity|apply (IH (InElems parent false dw) I)]].
+  Qed.
+
+  (** an empty list has its own row; the parent of a list with elements has none *)
+  Lemma empty_list_is_shown pa en e r : is_warn e = false -> is_child pa (pev_path e) = false ->
+    pp T d (PList pa en false :: e :: r) Top = plain_row T d (PList pa en false) :: full_rows T d e ++ pp T d r Top.
+  Proof. intros Hw Hc. cbn [pp]. destruct e; try discriminate; cbn [pev_path] in *; rewrite Hc; reflexivity. Qed.
 End P.
